@@ -725,6 +725,7 @@ func (in *Interp) explicitPanic(v Value) {
 	if in.tryDepth > 0 {
 		panic(gp)
 	}
+	in.sh.stats.add("obligations", 1) // "this panic statement is unreachable"
 	in.recordViolation("panic", "explicit-panic", gp.msg)
 	panic(abortPath{"panic reported"})
 }
@@ -2421,6 +2422,9 @@ func (in *Interp) recordViolation(kind, label, msg string) {
 	if r := in.sol.Check(); r != Sat {
 		if r == Unknown {
 			in.taint("solver unknown when extracting violation model")
+		} else {
+			// the path condition itself is unsatisfiable: the check holds vacuously on this (infeasible) path
+			in.sh.stats.add("discharged", 1)
 		}
 		return
 	}
